@@ -1263,7 +1263,7 @@ func readMultipartForm(r io.Reader, boundary string, size, maxInMemoryFileSize i
 	if size <= 0 {
 		return nil, fmt.Errorf("form size must be greater than 0: given %d", size)
 	}
-	lr := io.LimitReader(r, int64(size))
+	lr := &io.LimitedReader{R: r, N: int64(size)}
 	mr := multipart.NewReader(lr, boundary)
 	f, err := mr.ReadForm(int64(maxInMemoryFileSize))
 	if err != nil {
@@ -1271,7 +1271,10 @@ func readMultipartForm(r io.Reader, boundary string, size, maxInMemoryFileSize i
 	}
 	// Discard what follows the closing boundary, so exactly size bytes are
 	// consumed from r and the epilogue isn't left for the next message.
-	if _, err = io.Copy(io.Discard, lr); err != nil {
+	if _, err = io.Copy(io.Discard, lr); err == nil && lr.N > 0 {
+		err = io.ErrUnexpectedEOF
+	}
+	if err != nil {
 		f.RemoveAll() //nolint:errcheck
 		return nil, fmt.Errorf("cannot read multipart/form-data body: %w", err)
 	}
